@@ -586,7 +586,7 @@ func Bounds(quick bool) bounds {
 	if quick {
 		return bounds{keys: []string{"a", "b"}, maxDepth: 2, maxEntries: 2, maxCalls: 10}
 	}
-	return bounds{keys: []string{"a", "b"}, maxDepth: 3, maxEntries: 2, maxCalls: 14, passBudget: 4 * time.Minute}
+	return bounds{keys: []string{"a", "b"}, maxDepth: 3, maxEntries: 2, maxCalls: 14, passBudget: 2 * time.Minute}
 }
 
 var Engines = []string{"basic-any", "basic-map", "basic-list"}
